@@ -26,14 +26,14 @@ import (
 )
 
 type vfC08Case struct {
-	Mode     string `json:"mode"`   // client-tcp | client-ws | component-tcp
-	SM       bool   `json:"sm"`
-	Logger   bool   `json:"logger"`
-	G        int    `json:"g"`
-	N        int    `json:"n"`     // stanzas per goroutine
-	Seed     int64  `json:"seed"`
-	Fault    string `json:"fault"` // "" | error | short (k-th socket write fails / is short)
-	K        int    `json:"k"`
+	Mode   string `json:"mode"` // client-tcp | client-ws | component-tcp
+	SM     bool   `json:"sm"`
+	Logger bool   `json:"logger"`
+	G      int    `json:"g"`
+	N      int    `json:"n"` // stanzas per goroutine
+	Seed   int64  `json:"seed"`
+	Fault  string `json:"fault"` // "" | error | short (k-th socket write fails / is short)
+	K      int    `json:"k"`
 }
 
 // vfFaultConn sits under the stream logger (or directly under the transport) and fails / shortens the k-th write.
@@ -404,10 +404,10 @@ func vfC08Run(run *vfkit.Run, cs *vfC08Case) {
 
 // the logger wrapper in isolation: every k-th failure / short count must become an error, in both positions
 type vfMemRW struct {
-	mu    sync.Mutex
-	buf   []byte
-	n, k  int
-	kind  string
+	mu   sync.Mutex
+	buf  []byte
+	n, k int
+	kind string
 }
 
 func (m *vfMemRW) Read(p []byte) (int, error) { return 0, io.EOF }
